@@ -544,7 +544,15 @@ fn interleave_fixed_size_list(
         }
     };
 
-    let array = FixedSizeListArray::new(field.clone(), size, interleaved_values, interleaved.nulls);
+    // Pass the length explicitly: it cannot be derived from the (empty) values
+    // when `size` is zero
+    let array = FixedSizeListArray::try_new_with_length(
+        field.clone(),
+        size,
+        interleaved_values,
+        interleaved.nulls,
+        indices.len(),
+    )?;
     Ok(Arc::new(array))
 }
 
@@ -2362,5 +2370,20 @@ mod tests {
 
         assert_eq!(result.value(0).len(), 1);
         assert_eq!(result.value(3).len(), 1);
+    }
+
+    #[test]
+    fn test_interleave_zero_size_fixed_size_list() {
+        // the length of a FixedSizeList(_, 0) array is not recoverable from its child
+        let field = Arc::new(Field::new_list_field(DataType::Int32, true));
+        let values = Arc::new(Int32Array::from(Vec::<i32>::new()));
+        let a = FixedSizeListArray::try_new_with_length(field.clone(), 0, values.clone(), None, 3)
+            .unwrap();
+        let b = FixedSizeListArray::try_new_with_length(field, 0, values, None, 2).unwrap();
+        let result = interleave(&[&a, &b], &[(0, 2), (1, 0), (0, 0), (1, 1)]).unwrap();
+        assert_eq!(result.len(), 4);
+        assert_eq!(result.null_count(), 0);
+        assert_eq!(result.data_type(), a.data_type());
+        result.to_data().validate_full().unwrap();
     }
 }
